@@ -39,6 +39,15 @@ def EndValid (s : St) (e : End) : Prop :=
 def ConnEndsValid (s : St) : Prop :=
   (∀ c ∈ s.conns, EndValid s c.src ∧ EndValid s c.dst) ∧ (∀ p ∈ s.pins, s.hasObst p.owner = true)
 
+/-- a connector's owned checkpoint vertices are exactly the vertices of its current checkpoint list:
+    owned = created minus freed, no vertex owned twice, none freed twice -/
+def CheckpointsOwned (s : St) : Prop :=
+  s.allCps.Nodup ∧ s.vcreated.Nodup ∧ s.vfreed.Nodup ∧
+  ∀ v, v ∈ s.allCps ↔ (v ∈ s.vcreated ∧ v ∉ s.vfreed)
+
+/-- after `~Router` every checkpoint vertex ever created has been freed -/
+def CheckpointsReleased (s : St) : Prop := s.alive = false ∧ ∀ v ∈ s.vcreated, v ∈ s.vfreed
+
 /-- the model saw no use-after-free and no internal assertion (the historic `reentry` /
     `ctorBeforeRegister` faults are never raised since the upstream repairs) -/
 def NoFault (s : St) : Prop := s.faults = []
